@@ -15,7 +15,9 @@ from .common import Scratch, parallel, seed
 def clean_trace(tr):
     """JSON for TLC: drop python-only fields, no nulls."""
     end = tr.get("end", {})
+    extra = {"reader": tr["reader"]} if "reader" in tr else {}
     return {
+        **extra,
         "pools": tr["pools"],
         "flags": tr["flags"],
         "init": tr["init"],
@@ -34,14 +36,10 @@ def _validate_batch(batch_id, traces, scratch):
     )
     r = tlc.run_tlc(mod, cfg, workers=1, coverage=False, java_opts=mcgen.LIB_OPT, timeout=1800)
     viols, done = [], {}
-    for line in r.stdout.splitlines():
-        line = line.strip()
-        if line.startswith("<<\"@@V\""):
-            v = tlaval.parse(line)
-            viols.append((v[1], v[2], sorted(v[3], key=repr)))
-        elif line.startswith("<<\"@@D\""):
-            v = tlaval.parse(line)
-            done[v[1]] = v[2]
+    for v in tlaval.extract_tagged(r.stdout, "@@V"):
+        viols.append((v[1], v[2], sorted(v[3], key=repr)))
+    for v in tlaval.extract_tagged(r.stdout, "@@D"):
+        done[v[1]] = v[2]
     os.remove(path)
     return {"ok": r.ok, "viols": viols, "done": done, "states": r.distinct, "generated": r.generated,
             "kind": r.violation_kind, "name": r.violation_name, "tail": r.stdout[-3000:] if not r.ok else "",
